@@ -162,6 +162,34 @@ func Finish(ev *Evidence, vs []Violation) int {
 	return 0
 }
 
+// Report prints violations (or known findings) and writes their replay files without touching the
+// evidence file; it returns the number of violations that are not known findings.
+func Report(vs []Violation) int {
+	root := OutRoot()
+	unknown := 0
+	printed := map[string]bool{}
+	for _, v := range vs {
+		if printed[v.Fingerprint] {
+			continue
+		}
+		printed[v.Fingerprint] = true
+		if IsKnown(v) {
+			fmt.Printf("KNOWN-FINDING: property=%s %s [fingerprint=%s]\n", v.Prop, knownText(v), v.Fingerprint)
+			continue
+		}
+		unknown++
+		b, _ := json.MarshalIndent(v, "", " ")
+		sum := sha256.Sum256(b)
+		dir := filepath.Join(root, "replays", v.Prop)
+		os.MkdirAll(dir, 0o755)
+		path := filepath.Join(dir, fmt.Sprintf("%x.json", sum[:6]))
+		os.WriteFile(path, b, 0o644)
+		fmt.Printf("VIOLATION property=%s replay=%s\n", v.Prop, path)
+		fmt.Printf("  clause: %s\n  fingerprint: %s\n  detail: %s\n", v.Clause, v.Fingerprint, v.Detail)
+	}
+	return unknown
+}
+
 // ModelCheckingCoverage fills the coverage keys for a model_checking level from search stats.
 func ModelCheckingCoverage(st *Stats, extra map[string]any) map[string]any {
 	c := map[string]any{
